@@ -313,6 +313,19 @@ def coq_term(c, o, rng):
         clist(sched), rounds, '; '.join(res), '; '.join(ms), cb(eof), clist(api_cum), clist(o['w_k']), '; '.join(probe), clist(c.get('failw') or []))
 
 
+def bam_term(c, o, rng):
+    """bam.NewWriterLevel = Write(header bytes); Flush; Wait on a bgzf.Writer over the delaying sink: the snapshot
+    taken when it returned is compared with the model run on that script (results nil, all members, durable)."""
+    members = o['members']
+    data = o['data']
+    n = pool(c['wc'])
+    sched = [rng.randrange(0, n + 2) for _ in range(rng.randrange(0, 60))]
+    ms = ['(%s, %d, %d, %d, %d)' % (clist(m['hdr']), m['clen'], m['plen'], m['ada'], m['adb']) for m in members]
+    return 'WrCase [GWlit %s; GF; GWait] %s %d default_hdr %s%%nat %d%%nat [(%d, 0); (0, 0); (0, 0)] [%s] false [-2; -2; %d] %s [] []' % (
+        clist(data), cz(c['level']), c['wc'], clist(sched), 40 + 6 * len(members), len(data), '; '.join(ms), len(data),
+        clist(range(1, len(members) + 1)))
+
+
 def he_terms(c, o):
     kinds = {'sizer': 0, 'stater': 1, 'lenseeker': 2, 'none': 3}
     return ['HeCase %s %d %d %s %d' % (clist(o['out']), ob['pos'], kinds[ob['kind']], cb(ob['has']), ob['err'])
@@ -320,7 +333,7 @@ def he_terms(c, o):
 
 
 def strip(o):
-    d = {k: v for k, v in o.items() if k not in ('stack', 'out')}
+    d = {k: v for k, v in o.items() if k not in ('stack', 'out', 'data')}
     if 'members' in d and d['members']:
         d['members'] = [{k: v for k, v in m.items() if k != 'hdr'} for m in d['members'][:6]]
     return d
@@ -359,6 +372,9 @@ def run_property(res, rng, pid, cases, nontrivial, bucket, trusted, assume, rule
         res.count(bucket(c, o))
         for sig, what in judge(c, o, pid):
             res.failures.append(dict(sig=sig, what=what, case=c, observed=strip(o)))
+        if c.get('mode') == 'bam' and o.get('data') is not None and o.get('members') and o.get('hdr_ok'):
+            terms.append((c, o, bam_term(c, o, rng)))
+            continue
         if c.get('mode') in ('laws', 'bam', 'probe'):
             continue
         if any(k in o for k in ('hang', 'panic', 'crash', 'bad_case', 'newerr', 'garbled')):
@@ -373,7 +389,7 @@ def run_property(res, rng, pid, cases, nontrivial, bucket, trusted, assume, rule
             continue
         terms.append((c, o, coq_term(c, o, rng)))
     # big cases cost most: spread them over the shards
-    terms.sort(key=lambda t: -total_len(t[0]['ops']) if t[0].get('mode') == 'rt' else 0)
+    terms.sort(key=lambda t: -total_len(t[0]['ops']) if t[0].get('mode', 'rt') == 'rt' else 0)
     nsh = 10
     order = []
     for i in range(nsh):
